@@ -15,6 +15,7 @@ ASSUMPTIONS = {
  'A10': 'A10 left-to-right evaluation, insertion-ordered dicts; iteration order over a dict is arbitrary but duplicate-free',
  'A12': 'A12 BaseComponent.advance (utils/component.py) as used by the agent scheduler sets thing["state"], publishes and pushes as its arguments say and does not touch the scheduler\'s own structures; the agent-side wrapper AgentComponent.advance is under contract (C05), the base implementation is not',
  'A13': 'A13 radical.utils.lazy_bisect(data, check=..) (a dependency, not part of /repo): calls check at most once per element and nothing else that touches the scheduler, and returns three lists partitioning data into accepted / refused-or-skipped / raised; the scheduler-state summary after it composes the verified contract of _try_allocation over that call sequence (induction over the calls, not machine-checked)',
+ 'A14': 'A14 the command lines of the external launchers mean what their documentation says: mpirun -np N -host h1,..,hN starts N processes, one per listed host entry (MPT: -np per listed host); aprun / ccmrun -n N starts N; ssh / rsh <host> runs one process on host; mpiexec -np with --hostfile / -f / -rf, srun --ntasks --nodes --nodelist / --nodefile, prun --np --host h:k, ibrun -n as read by harness/lm_sim.py',
  'A11': 'A11 pyvc, z3 and cvc5 are the trusted computing base (canaries, cover checks, self-test edits and the CPython cross-check are the guards)',
 }
 
@@ -231,6 +232,20 @@ PROPS['C04'] = dict(
              'idle pilot starts a fitting waiter; fitting task never failed': 'B (bounded histories); KNOWN FINDING for partition tasks',
              'higher priority first': 'P for the order in which pools are tried (_schedule_waitpool) + B (bounded histories)',
              'interleaving of cancel requests between loop steps': 'P at the queue boundary (cancel arrives as a queue item) + B'})
+
+PROPS['C09'] = dict(
+    level='other',
+    claim='launch commands as a function of the placement: for FORK, SSH, RSH, CCMRUN, APRUN and MPIRUN (plain, MPT, host list and host file) the generated command is proved equal to the launcher\'s command-line form instantiated with exactly the ranks and node names of the placement (ranks -> -n / -np, nodes in placement order -> host list or host file), the method refuses what it cannot start (SSH/RSH: not exactly one rank; FORK.can_launch: more than one rank, MPI, foreign node), and get_launch_cmds leaves the launcher object unchanged (frame obligation), so earlier generations cannot influence a command; all obligations discharged for every placement. MPIEXEC (rank file / host file flavours, PALS), SRUN, PRTE and IBRUN are checked by a bounded native enumeration of placements with a reader for each launcher\'s command line (labelled bounded)',
+    note='that the command-line forms mean what the readers / postconditions take them to mean is an assumption on the external launchers (A14); JSRUN (old slot structure fed by its own scheduler), FLUX and DRAGON (service based) are not covered; core / GPU pinning is checked only where the bounded readers see it (rank files)',
+    assumptions=['A2', 'A4', 'A9', 'A10', 'A11', 'A14'],
+    trusted_base=['radical.utils.create_hostfile: writes the list it is given (the list is what is checked)'],
+    explanation='postcondition: result == <command grammar>(placement); frame: modifies nothing of self; bounded native enumeration for the launchers outside the subset',
+    bounded=[dict(name='lm-placements', cmd=['harness/run_bounded.py', 'lm-placements'], timeout=900)],
+    clauses={'as many processes as ranks': 'P (fork ssh rsh ccmrun aprun mpirun) / B (mpiexec srun prte ibrun)',
+             'exactly the nodes of the placement': 'P (ssh rsh mpirun) / B (mpiexec srun prte); aprun, ccmrun, ibrun name no nodes',
+             'cores / GPUs where the method can pin': 'B (mpiexec rank file) / not decided elsewhere',
+             'depends only on the task at hand': 'P (frame: launcher object unchanged) for the six; B (replayed after other generations) for all',
+             'refuses instead of a command for another process count': 'P (ssh rsh fork) / B'})
 
 PROPS['C05'] = dict(
     level='other',
